@@ -37,6 +37,8 @@ def c09_oracle(case, config, sched, obs):
         return ("not-serial", bad)
     keys = [f["key"] for f in case["fields"]]
     if obs["status"] == "ok":
+        if not isinstance(obs["data"], dict):
+            return ("field-skipped", "response data is %r, not an object with the keys %r" % (obs["data"], keys))
         if list(obs["data"].keys()) != keys:
             return ("keys-out-of-order", "response keys %r, document order %r" % (list(obs["data"].keys()), keys))
         called = [p[0] for k, p in obs["trace"] if k == "call" and len(p) == 1]
@@ -54,6 +56,10 @@ def shapes():
         ("nested", I, {"r": "ok", "v": 3}),
         ("deferred", I, {"r": "rerr"}),
         ("nested", I, {"r": "rerr"}),
+        ("deferred", {"t": "nn", "of": I}, {"r": "rerr"}),
+        ("sync", {"t": "nn", "of": I}, {"r": "rerr"}),
+        ("deferred", {"t": "nn", "of": I}, {"r": "ok", "v": None}),
+        ("nested", {"t": "nn", "of": sub}, {"r": "ok", "v": None}),
         ("ready", I, {"r": "rerr"}),
         ("ready", sub, {"r": "ok", "v": {"c": {"r": "ok", "v": 7}, "d": {"r": "ok", "v": 8}}}),
         ("sync", {"t": "nn", "of": I}, {"r": "ok", "v": None}),
@@ -97,7 +103,7 @@ def run(ctx):
             r = i % 4
             case = W.gen_case(rng, kind="mutation", n_top=rng.randint(1 if i % 5 else 2, 5), depth=rng.randint(1, 2),
                               p_sync=(0.15, 0.4, 0.6, 0.3)[r], p_nested=0.2, max_sub=2,
-                              p_exc=0.06 if r == 3 else 0.0, p_rerr=0.18)
+                              p_exc=0.06 if r == 3 else 0.0, p_rerr=0.18, p_nn=(0.25, 0.55)[i % 2])
             ctx.stat("stream=random")
             ctx.stat("top-level=%d" % len(case["fields"]))
             if i < 3:
